@@ -395,7 +395,7 @@ impl Allocator {
     #[cfg(feature = "gc_stress")]
     return self.sweep_obj_full();
 
-    #[cfg(feature = "verif")]
+    #[cfg(all(feature = "verif", not(feature = "gc_stress")))]
     if crate::verif::gc_force_full() {
       return self.sweep_obj_full();
     }
